@@ -211,3 +211,8 @@ for _p in ("C01", "C07", "C16"):
     CHECKS[_p].assumptions.append("contracts.unbounded (any extent): engine/generic.py's reading of numpy basic indexing, right-aligned broadcasting and "
                                   "in-order slice assignment; range(lo, hi) iterates in order; the Obara-Saika relations characterise the 1-D integrals "
                                   "(tied to the closed-form specification by the per-shape contract up to extent 8)")
+for _p in ("C02", "C08", "C16"):
+    CHECKS[_p].harnesses.append("contracts.unbounded:DiffRecursionAnyL")
+    CHECKS[_p].assumptions.append("contracts.unbounded (any extent): engine/generic.py's reading of numpy basic indexing, right-aligned broadcasting and "
+                                  "in-order slice assignment; range(lo, hi) iterates in order; integration by parts for the derivative relation "
+                                  "(tied to the closed-form specification by the per-shape contract up to extent 5)")
